@@ -77,7 +77,7 @@ func cmdCheck(argv []string) {
 	wall := fs.Duration("wall", 120*time.Second, "wall-clock budget per driver")
 	samples := fs.Int("samples", 1, "completed paths per driver for which a model and concrete logs are kept")
 	solver := fs.String("solver", "z3", "z3 | z3-new | cvc5")
-	record := fs.String("record", "", "write the query transcript of worker 0 to this file")
+	record := fs.String("record", "", "write the query transcript of worker i to <file>.<i>")
 	qtimeout := fs.Duration("qtimeout", 15*time.Second, "hard wall-clock limit per solver query (watchdog)")
 	refPlain := fs.Bool("refplain", false, "run the reference side of -pair as plain Go (no co intrinsics): used when both sides are generated code (C07)")
 	initPkgs := fs.String("init", "", "comma-separated extra package paths whose init may run")
@@ -241,8 +241,8 @@ func cmdCheck(argv []string) {
 		go func(wi int) {
 			defer wg.Done()
 			var rec *os.File
-			if wi == 0 && *record != "" {
-				rec, _ = os.Create(*record)
+			if *record != "" {
+				rec, _ = os.Create(fmt.Sprintf("%s.%d", *record, wi))
 				defer rec.Close()
 			}
 			var recW interface{ Write([]byte) (int, error) }
